@@ -40,6 +40,26 @@ def run(ctx):
     r4_installed_reader(chk, fx)
     r5_installed_statement(chk, fx)
     r6_term_name_is_family(chk, fx)
+    r7_managed_means_annotated(chk, fx)
+    r8_success_means_acknowledged(chk, fx)
+
+
+def r7_managed_means_annotated(chk, fx):
+    """'.. and contains no policy that is no longer marked as managed': compare deletes an installed policy exactly when its statement is
+    not among the candidates (R1), so the clause stands on which statements the candidate reader selects — active, annotated with a
+    comment that *is* the bgpfu-fltr annotation, default reject.  C16's decision on that reader, recorded here."""
+    from .c15 import _Rename
+    from . import c16
+    c16.selection_rules(_Rename(chk, "C16/R", "C01/R7:C16/R"), fx)
+
+
+def r8_success_means_acknowledged(chk, fx):
+    """'When an agent run reports success ..' is a premise about the router: the run returned Ok only if every step, the commit above all,
+    was positively acknowledged.  What counts as an acknowledgement is the classification of the replies of the operations the run
+    uses (an <ok/> next to an rpc-error of severity error is not one): C04/R6's decision, recorded here."""
+    from .c15 import _Rename
+    from . import c04
+    c04.r6_acknowledgement(_Rename(chk, "C04/R6", "C01/R8:C04/R6"), fx)
 
 
 def r1_compare(chk, fx):
